@@ -239,6 +239,9 @@ func (c *Conn) Close() error {
 	}
 	c.closed = true
 
+	// Stop routing incoming packets to this stream.
+	c.handler.rmStream(c.stanzaWriter.sid)
+
 	// Flush any remaining data to be written.
 	err := c.Flush()
 	if err != nil {
